@@ -837,6 +837,13 @@ func main() {
 		"malformed text / short binary input must return an error; a panic there is counted but left to C07",
 		"math/big and time.Unix of the standard library are correct",
 	)
+	// race side run (./check builds this monitor with -race): only the workloads in which goroutines
+	// use the library at the same time; the detector's reports are filed by Finish
+	if mon.SideRace() {
+		contention()
+		r.Eval(int(evals.Load()))
+		r.Finish()
+	}
 	// boundary set, deterministic
 	for i, b := range boundaryValues() {
 		checkGenericUUID(b, "b")
